@@ -5,6 +5,7 @@ import Props.C06
 #print axioms SpyneModel.Props.C06.generated_schema_denotes
 #print axioms SpyneModel.Props.C06.leaf_literal_valid
 #print axioms SpyneModel.Props.C06.lxml_soft_agree
+#print axioms SpyneModel.Props.C06.gen_compiles
 #print axioms SpyneModel.Props.C06.class_definitions_compile
 #print axioms SpyneModel.Props.C06.integer_restriction_legal
 #print axioms SpyneModel.Props.C06.string_restriction_legal
